@@ -130,7 +130,8 @@ def _(e, c, a):
 def _(e, c, a):
     needle = a[0]; cells = deref_vec(a[1]).cells
     for i, x in enumerate(cells):
-        if e.branch(e.binop('Eq', x.v, needle, 'u8')): return Some(i)
+        if e.branch(e.binop('Eq', x.v, needle, 'u8')):
+            e.events.append(('memchr-hit', x)); return Some(i)
     return NONE()
 
 
@@ -159,19 +160,35 @@ def crc16_xmodem(e, cells):
     return z3.simplify(crc)
 
 
-@model(r'crc16::State::<.*XMODEM>::calculate$|State::<(crc16::)?XMODEM>::calculate$|crc16::State<.*>::calculate$')
+@model(r'(?:crc16::)?State(<.*>)?::calculate$')
 def _(e, c, a):
     if 'XMODEM' not in c: raise Unmodelled('crc16 variant ' + c)
     return crc16_xmodem(e, deref_vec(a[0]).cells)
 
 
+_CRC64_TAB = None
+
+
+def crc64_jones(crc, data):
+    """CRC-64/Jones (poly 0xad93d23594c935a9, reflected), the variant of the crc64 crate / Redis"""
+    global _CRC64_TAB
+    if _CRC64_TAB is None:
+        poly = 0x95AC9329AC4BC9B5
+        tab = []
+        for i in range(256):
+            c = i
+            for _ in range(8): c = (c >> 1) ^ poly if c & 1 else c >> 1
+            tab.append(c)
+        _CRC64_TAB = tab
+    for b in data: crc = _CRC64_TAB[(crc ^ b) & 0xff] ^ (crc >> 8)
+    return crc
+
+
 @model(r'^crc64::crc64$|^crc64$')
 def _(e, c, a):
     cells = deref_vec(a[1]).cells
-    bs = bytes(x.v for x in cells)
-    # injective label over the concrete inputs used (the value itself is never a subject)
-    import zlib, hashlib
-    return int.from_bytes(hashlib.sha256(bs).digest()[:8], 'big') ^ (a[0] if not is_sym(a[0]) else 0)
+    if is_sym(a[0]) or any(is_sym(x.v) for x in cells): raise Unmodelled('crc64 of symbolic data')
+    return crc64_jones(a[0], bytes(x.v for x in cells))
 
 
 # ---------------------------------------------------------------- bytes crate
@@ -413,3 +430,146 @@ def _(e, c, a):
 def _(e, c, a):
     if 'into_future' in c: return a[0]
     return e.poll(a[0])
+
+
+# ---------------------------------------------------------------- atomics (sequential semantics; the concurrent mode intercepts these)
+ATOMIC = r'(?:^|::)Atomic(?:<.*>)?(?:U64|Usize|U32|I64|Bool|U8|I32|Isize)?(?:<.*>)?::'
+
+
+def _atomic_hook(e, op, cell, *vals):
+    h = getattr(e, 'atomic_hook', None)
+    return h(op, cell, *vals) if h else None
+
+
+@model(ATOMIC + r'new$|<(std::sync::atomic::)?Atomic\w* as Default>::default$')
+def _(e, c, a): return Struct('Atomic', [a[0] if a else 0])
+
+
+@model(ATOMIC + r'load$')
+def _(e, c, a):
+    cell = un(a[0]).f[0]
+    r = _atomic_hook(e, 'load', cell)
+    return cell.v if r is None else r
+
+
+@model(ATOMIC + r'store$')
+def _(e, c, a):
+    cell = un(a[0]).f[0]
+    if _atomic_hook(e, 'store', cell, a[1]) is None: cell.v = a[1]
+    return mk_unit()
+
+
+@model(ATOMIC + r'swap$')
+def _(e, c, a):
+    cell = un(a[0]).f[0]
+    r = _atomic_hook(e, 'swap', cell, a[1])
+    if r is not None: return r
+    old = cell.v; cell.v = a[1]; return old
+
+
+@model(ATOMIC + r'fetch_(add|sub|and|or|max|min)$')
+def _(e, c, a):
+    cell = un(a[0]).f[0]; k = re.search(r'fetch_(\w+)$', strip_generics(c).strip()).group(1)
+    r = _atomic_hook(e, 'fetch_' + k, cell, a[1])
+    if r is not None: return r
+    old = cell.v
+    ty = 'u64'
+    if k == 'add': cell.v = e.binop('Add', old, a[1], ty)
+    elif k == 'sub': cell.v = e.binop('Sub', old, a[1], ty)
+    elif k == 'and': cell.v = e.binop('BitAnd', old, a[1], ty)
+    elif k == 'or': cell.v = e.binop('BitOr', old, a[1], ty)
+    elif k == 'max': cell.v = zite(e.binop('Ge', old, a[1], ty), old, a[1])
+    else: cell.v = zite(e.binop('Le', old, a[1], ty), old, a[1])
+    return old
+
+
+@model(ATOMIC + r'compare_exchange(_weak)?$|' + ATOMIC + r'compare_and_swap$')
+def _(e, c, a):
+    cell = un(a[0]).f[0]
+    r = _atomic_hook(e, 'cas', cell, a[1], a[2])
+    if r is not None: return r
+    old = cell.v
+    if e.branch(veq(old, a[1])):
+        cell.v = a[2]
+        return Ok(old) if 'compare_exchange' in c else old
+    return Err(old) if 'compare_exchange' in c else old
+
+
+@model(ATOMIC + r'(get_mut|into_inner)$')
+def _(e, c, a):
+    at = un(a[0]); return Ref(at.f[0]) if 'get_mut' in c else at.f[0].v
+
+
+@model(r'^std::fence$|^std::compiler_fence$|^std::spin_loop$')
+def _(e, c, a): return mk_unit()
+
+
+# ---------------------------------------------------------------- arrayvec::ArrayVec
+@model(r'ArrayVec(<.*>)?::new$')
+def _(e, c, a): return RVec([], 'ArrayVec')
+
+
+@model(r'ArrayVec(<.*>)?::(try_push|push)$')
+def _(e, c, a):
+    v = deref_vec(a[0]); m = re.search(r'; (\d+)\]', c); cap = int(m.group(1)) if m else 64
+    if len(v.cells) >= cap:
+        if 'try_push' in c: return Err(Struct('CapacityError', [a[1]]))
+        raise Panic('ArrayVec capacity')
+    v.cells.append(Cell(a[1]))
+    return Ok(mk_unit()) if 'try_push' in c else mk_unit()
+
+
+@model(r'ArrayVec(<.*>)?::(as_slice|as_ref|deref|as_mut_slice)$|<(arrayvec::)?ArrayVec<.*> as Deref(Mut)?>::deref(_mut)?$')
+def _(e, c, a): return SliceRef(deref_vec(a[0]))
+
+
+@model(r'ArrayVec(<.*>)?::len$')
+def _(e, c, a): return len(deref_vec(a[0]).cells)
+
+
+@model(r'ArrayVec(<.*>)?::(is_full|is_empty|capacity|clear)$')
+def _(e, c, a):
+    v = deref_vec(a[0]); m = re.search(r'; (\d+)\]', c); cap = int(m.group(1)) if m else 64
+    k = strip_generics(c).strip().split('::')[-1]
+    if k == 'clear': del v.cells[:]; return mk_unit()
+    return {'is_full': len(v.cells) >= cap, 'is_empty': not v.cells, 'capacity': cap}[k]
+
+
+@model(r'ArrayString(<.*>)?::try_push$|ArrayString(<.*>)?::push$')
+def _(e, c, a):
+    s_ = un(a[0]); m = re.search(r'; (\d+)\]', c); cap = int(m.group(1)) if m else 31
+    t = sval(s_) + chr(a[1])
+    if len(t.encode()) > cap:
+        if 'try_push' in c: return Err(Struct('CapacityError', [a[1]]))
+        raise Panic('ArrayString capacity')
+    s_.s = t
+    return Ok(mk_unit()) if 'try_push' in c else mk_unit()
+
+
+@model(r'^std::size_of$|^std::size_of_val$|^std::align_of$')
+def _(e, c, a):
+    ty = (generic_args(c) or '').strip()
+    if ty.endswith('ClusterName'): return 32
+    if ty in INT_W: return max(1, INT_W[ty] // 8)
+    raise Unmodelled('size_of::<%s>' % ty)
+
+
+@model(r'<.* as (io::)?Write>::(write|write_all)$|<Vec<u8> as Write>::(write|write_all)$')
+def _(e, c, a):
+    tgt = un(a[0])
+    from .containers import slice_cells
+    data = slice_cells(a[1])
+    if isinstance(tgt, PyObj): return tgt.mir_call(e, 'Write', 'write', a)
+    if isinstance(tgt, Struct) and tgt.name not in ('[]',):
+        k = strip_generics(c).strip().split('::')[-1]
+        fs = e.by_impl.get((tgt.name, 'Write', k))
+        if fs: return e.run_func(fs[0], a)
+        if k == 'write_all':
+            fs = e.by_impl.get((tgt.name, 'Write', 'write'))
+            if fs: e.run_func(fs[0], a); return Ok(mk_unit())
+    deref_vec(tgt).cells.extend(Cell(x.v) for x in data)
+    return Ok(len(data)) if strip_generics(c).strip().endswith('::write') else Ok(mk_unit())
+
+
+@model(r'<.* as (io::)?Write>::flush$')
+def _(e, c, a): return Ok(mk_unit())
